@@ -346,6 +346,12 @@ func (h *httpServerHandler) handlePostRequest(ctx context.Context, w http.Respon
 			reqCtx = withClientSession(reqCtx, session)
 		}
 		resp, err := h.requestHandler.handleRequest(reqCtx, &req, session)
+		// The handler has returned; the answer is written next. Goroutines it left behind must neither
+		// put a notification between the lines of the answer nor touch the ResponseWriter once this
+		// function has returned: wait for one that is inside an event and refuse later ones.
+		notificationSender.writeMu.Lock()
+		notificationSender.finished = true
+		defer notificationSender.writeMu.Unlock()
 		if err != nil {
 			errorResp := newJSONRPCErrorResponse(req.ID, ErrCodeInternal, err.Error(), nil)
 			if err := sseResponder.respond(ctx, w, r, errorResp, session); err != nil {
